@@ -407,17 +407,24 @@ impl<'w> Judge<'w> {
     /// is counted as skipped and left to C09).
     pub fn loose_caps(case: &Case) -> AllocCaps {
         let b = Self::alloc_bound(case.bytes.len());
-        AllocCaps { single: b, window: 4 * b }
+        AllocCaps { single: Self::single_request_cap(case.bytes.len()), window: 4 * b }
     }
 
     pub fn alloc_bound(input_len: usize) -> u64 {
         16 * 1024 * 1024 + 4096 * input_len as u64
     }
 
+    /// A single request this large for this input is out of proportion on its own; refusing it
+    /// at the request (rather than when the window total is crossed later by some small
+    /// allocation) names the right call site.
+    pub fn single_request_cap(input_len: usize) -> u64 {
+        4 * 1024 * 1024 + 2048 * input_len as u64
+    }
+
     fn c09(&mut self, case: &Case) -> Vec<Violation> {
         let tag = case.unit << 20 | case.idx;
         let bound = Self::alloc_bound(case.bytes.len());
-        let caps = AllocCaps { single: bound, window: bound };
+        let caps = AllocCaps { single: Self::single_request_cap(case.bytes.len()), window: bound };
         let mut v = vec![];
         let (leg, o) = if case.run_mem { ("mem", run_mem(case, &self.w.gens, caps, tag)) } else { ("stream", run_stream(case, &self.w.gens, caps, tag)) };
         record(&mut self.stats, case, leg, &o);
@@ -454,7 +461,7 @@ impl<'w> Judge<'w> {
     fn c10(&mut self, case: &Case) -> Vec<Violation> {
         let tag = case.unit << 20 | case.idx;
         let bound = Self::alloc_bound(case.bytes.len());
-        let caps = AllocCaps { single: bound, window: bound };
+        let caps = AllocCaps { single: Self::single_request_cap(case.bytes.len()), window: bound };
         let fragmented = case.run_stream;
         let leg = if fragmented { "simbuf" } else { "bytes" };
         let o = run_pb(case, fragmented, caps, tag);
@@ -519,7 +526,7 @@ impl<'w> Judge<'w> {
     fn c19(&mut self, case: &Case) -> Vec<Violation> {
         let tag = case.unit << 20 | case.idx;
         let bound = Self::alloc_bound(case.bytes.len());
-        let caps = AllocCaps { single: bound, window: 4 * bound };
+        let caps = AllocCaps { single: Self::single_request_cap(case.bytes.len()), window: 4 * bound };
         let mut v = vec![];
         let leg = match (&case.level, case.run_mem) {
             (Level::Pb(_), true) => "bytes",
